@@ -98,7 +98,7 @@ def inspectedMembers : List String := ["path", "from"]
 /-- C13/C07: comparison operators of the size gates (site ↦ source condition) -/
 def limitOps : List (String × String) :=
   [("validateID", "len(id) > maxIDLength"),
-   ("validateServiceType", "len(serviceType) > maxServiceTypeLength"),
+   ("validateServiceType", "utf8.RuneCountInString(serviceType) > maxServiceTypeLength"),
    ("validateKeyPurposes", "len(pubKey.Purpose()) > len(allowedPurposes)"),
    ("ParseOperation", "len(operationBuffer) > int(p.MaxOperationSize)"),
    ("validateMultihash", "len(mh) > int(p.MaxOperationHashLength)"),
